@@ -134,6 +134,30 @@ def regexSearch (F : Fold) (sel : Nat × Nat) (pat : List Nat) (docs : List (Lis
     (engine : List (Nat × Nat)) : List (Nat × Nat) :=
   if (substrSearch F sel pat docs text).isEmpty then [] else engine
 
+/-! ### `newMatchTree` on a literal: which match tree evaluates it -/
+
+/-- the match trees involved: the trigram-based substring tree, the regexp tree for a literal, and the conjunction
+    `regexp ∧ (match everything)` that `newMatchTree` builds when the distilled pre-filter is not equivalent -/
+inductive MTree where
+  | substr (pat : List Nat) (caseSensitive : Bool)
+  | regex (pat : List Nat) (fold caseSensitive : Bool)
+  | regexAndAll (pat : List Nat) (fold caseSensitive : Bool)
+  deriving DecidableEq, Repr
+
+def byteLen (pat : List Nat) : Nat := (pat.map utf8Len).sum
+
+/-- `newSubstringMatchTree`: fewer than 3 runes → a regexp tree for the literal -/
+def newSubstringMatchTree (pat : List Nat) (cs : Bool) : MTree :=
+  if pat.length < 3 then .regex pat false cs else .substr pat cs
+
+/-- `newMatchTree` for `query.Substring` -/
+def treeOfSubstring (pat : List Nat) (cs : Bool) : MTree := newSubstringMatchTree pat cs
+
+/-- `newMatchTree` for a `query.Regexp` whose tree is the literal `rs` with FoldCase flag `fold`
+    (`regexpToMatchTreeRecursive`: at least 3 *bytes* → the substring tree, marked equivalent and used alone) -/
+def treeOfRegexpLit (rs : List Nat) (fold cs : Bool) : MTree :=
+  if byteLen rs ≥ 3 then newSubstringMatchTree rs (!fold && cs) else .regexAndAll rs fold cs
+
 /-! ### `query.RegexpQuery`: the literal-regexp → substring optimisation -/
 
 /-- what `RegexpQuery` builds for an optimised regexp that is a literal with runes `rs` and `FoldCase` flag `fold` -/
